@@ -143,11 +143,14 @@ SEnc(f, v) == CASE f = "tagged" -> TaggedEnc(v)
                [] f = "csimple" -> CSimpleEnc(v)
                [] OTHER -> SplitEnc(f, v)
 \* fixed-width forms (tagged, ext, extbe)
+\* "extbig": the 128-bit fixed-width writer / reader (widths up to 16 bytes) carrying a 64-bit value
 FixedLegal(f, v, w) == CASE f = "tagged" -> TaggedFixedLegal(v, w)
+                         [] f = "extbig" -> w \in 1..16 /\ w >= ByteWidth(v)
                          [] OTHER -> w \in 1..8 /\ w >= ByteWidth(v)
 EncFixed(f, v, w) == CASE f = "tagged" -> TaggedEncW(v, w)
                        [] f = "ext" -> ExtEncW(v, w)
                        [] f = "extbe" -> ExtBEEncW(v, w)
+                       [] f = "extbig" -> ExtEncW(v, IF w > 8 THEN 8 ELSE w) \o [i \in 1..(IF w > 8 THEN w - 8 ELSE 0) |-> 0]
 \* bit r of byte b; word from a bit function
 ByteBit(b, r) == (b \div Pow2[r + 1]) % 2
 FromBitFn(F(_)) == [i \in 1..8 |-> F(8*(i-1)) + 2*F(8*(i-1)+1) + 4*F(8*(i-1)+2) + 8*F(8*(i-1)+3)
@@ -168,7 +171,7 @@ SDec(f, z, n) == CASE f = "tagged" -> TaggedDec(z)
                   [] OTHER -> SplitDec(f, z)
 \* documented length ranges
 MinLen(f) == IF f = "split16" THEN 2 ELSE 1
-MaxLen(f) == IF f \in {"ext", "extbe"} THEN 8 ELSE 9
+MaxLen(f) == IF f \in {"ext", "extbe"} THEN 8 ELSE IF f = "extbig" THEN 16 ELSE 9
 \* families whose length is announced by the first byte
 LenFromFirst(f, b) == IF f = "tagged" THEN TaggedLenFromFirst(b) ELSE SplitLenFromFirst(f, b)
 SelfDescribing(f) == f \in {"tagged"} \cup SplitFams
